@@ -33,7 +33,8 @@ pub fn oracle(c: &FieldCase, obs: &mut Obs) -> Vec<Violation> {
         if verdict != Verdict::MustReject {
             // (for MustReject inputs the acceptance itself is the violation, reported above)
             if let Err(d) = faithful(&c.content, v) {
-                out.push(viol(format!("C05|{}|unfaithful|{}", c.ty, if verdict == Verdict::MustAccept { reason.clone() } else { "undetermined-input".to_string() }), d));
+                let why = if crate::refs::has_long_number(&c.content) { "16digits".to_string() } else if verdict == Verdict::MustAccept { reason.clone() } else { "undetermined-input".to_string() };
+                out.push(viol(format!("C05|{}|unfaithful|{}", c.ty, why), d));
             }
         }
         if c.origin == "valid" && verdict == Verdict::MustAccept {
